@@ -27,7 +27,8 @@ def config(tier):
     }
 
 
-ALLT = ["buf", "not", "and", "nand", "or", "nor", "xor", "xnor", "0", "1", "x", "input", "bb_input", "bb_output", NOTYPE, "foo"]
+ALLT = ["buf", "not", "and", "nand", "or", "nor", "xor", "xnor", "0", "1", "x", "input", "bb_input", "bb_output", NOTYPE, "foo",
+        "AND", "Input", "BUF", "Bb_input", "X"]
 
 
 def rand_ill(rng):
@@ -59,6 +60,7 @@ def producers(ctx, r):
         ("logic.adder", lambda: cg.logic.adder(w, carry_in=r.random() < 0.5, carry_out=r.random() < 0.5)),
         ("logic.mux", lambda: cg.logic.mux(r.randint(1, 9))),
         ("logic.popcount", lambda: cg.logic.popcount(r.randint(1, 9))),
+        ("logic.popcount(even)", lambda: cg.logic.popcount(r.choice([6, 10, 12, 14]))),
         ("logic.half_adder", cg.logic.half_adder),
         ("logic.full_adder", cg.logic.full_adder),
         ("tx.limit_fanin", lambda: cg.tx.limit_fanin(c, 2)),
